@@ -34,6 +34,8 @@ func features() sqlgen.Features {
 	f.DDLExtras = hx.Allowed("c03.ddl_extras")
 	f.Alter = hx.Allowed("c03.alter_table")
 	f.AlterQualified = hx.Allowed("c03.alter_qualified_table")
+	f.MySQL = hx.Allowed("c03.mysql_forms")
+	f.Partitions = hx.Allowed("c03.partitions")
 	return f
 }
 
